@@ -30,7 +30,7 @@ Spec == Init /\ [][Next]_vars
 Finished == m.st # "run" \/ fuel = 0
 Emit == Finished => PrintT(ToJson([tag |-> "CASE", i |-> i, st |-> IF m.st = "run" THEN "Fuel" ELSE m.st,
                                    why |-> IF m.st \in {"Unspecified", "Unmodelled"} THEN m.e[2] ELSE "",
-                                   out |-> m.out, ev |-> hist]))
+                                   out |-> m.out, used |-> m.used, ev |-> hist]))
 \* properties of the reference machine itself
 OutGrows == [][Len(m.out) <= Len(m'.out) /\ SubSeq(m'.out, 1, Len(m.out)) = m.out]_vars
 MachineOk == DoneClean(m) /\ EnvWellFormed(m)
